@@ -101,7 +101,27 @@ where
             if got != want {
                 return Outcome::fail(json!({"res": got}), format!("spec predicts {want}, library returned {got}"));
             }
-            Outcome::pass(json!({"res": got}))
+            let mut o = Outcome::pass(json!({"res": got}));
+            // the same action through the trait-level entry point (no such entry point for message augmentation)
+            let t = match gets(v, "scheme") {
+                "Basic" => Some(<C as BlsSignatureBasic>::partial_sign(&share.0, &msg)),
+                "Pop" => Some(<C as BlsSignaturePop>::partial_sign(&share.0, &msg)),
+                _ => None,
+            };
+            if let Some(t) = t {
+                let tg = if t.is_ok() { "Ok" } else { "Err" };
+                if tg != want {
+                    return Outcome::fail(json!({"path": "trait", "trait": tg, "struct": got}), format!("spec predicts {want}, the trait-level partial_sign returned {tg}"));
+                }
+                if let (Ok(a), Ok(b)) = (&t, &r) {
+                    use blsful::vsss_rs::Share;
+                    if a.identifier() != b.as_raw_value().identifier() || a.value_vec() != b.as_raw_value().value_vec() {
+                        return Outcome::fail(json!({"path": "trait"}), "the trait-level partial_sign and SecretKeyShare::sign produce different shares");
+                    }
+                }
+                o.extra += 1;
+            }
+            o
         }
         "PartialVerify" => {
             let sh = match dealt {
@@ -125,6 +145,18 @@ where
             }
             let mut o = Outcome::pass(json!({"res": got}));
             o.extra += 1;
+            let t = match gets(v, "scheme") {
+                "Basic" => Some(<C as BlsSignatureBasic>::partial_verify(pks.0, *sig.as_raw_value(), &mv)),
+                "Pop" => Some(<C as BlsSignaturePop>::partial_verify(pks.0, *sig.as_raw_value(), &mv)),
+                _ => None,
+            };
+            if let Some(t) = t {
+                let tg = if t.is_ok() { "Ok" } else { "Err" };
+                if tg != want {
+                    return Outcome::fail(json!({"path": "trait", "trait": tg, "struct": got}), format!("spec predicts {want} for partial verify (i={i}, j={j}), the trait-level partial_verify returned {tg}"));
+                }
+                o.extra += 1;
+            }
             o
         }
         "Combine" => {
@@ -192,6 +224,15 @@ where
                         return Outcome::fail(json!({"res": got}), format!("spec predicts {want}, PublicKey::from_shares returned {got}"));
                     }
                     let mut o = Outcome::pass(json!({"res": got}));
+                    {
+                        let inner: Vec<<C as Pairing>::PublicKeyShare> = shares.iter().map(|s| s.0).collect();
+                        let t = <C as BlsSignatureCore>::core_combine_public_key_shares(&inner);
+                        let tg = if t.is_ok() { "Ok" } else { "Err" };
+                        if tg != want || t.as_ref().ok().map(|p| enc_k::<C>(p)) != r.as_ref().ok().map(|p| enc_k::<C>(&p.0)) {
+                            return Outcome::fail(json!({"path": "trait", "trait": tg, "struct": got}), format!("spec predicts {want}, the trait-level core_combine_public_key_shares returned {tg} (or another point)"));
+                        }
+                        o.extra += 1;
+                    }
                     if let Ok(c) = r {
                         if (c == sk.public_key()) != want_whole {
                             return Outcome::fail(json!({}), "recombined public key vs whole public key: not as the spec predicts");
@@ -226,6 +267,16 @@ where
                         return Outcome::fail(json!({"res": got}), format!("spec predicts {want}, Signature::from_shares returned {got}"));
                     }
                     let mut o = Outcome::pass(json!({"res": got}));
+                    // the trait-level combiner sees payloads only; it refines the action when the labels are uniform
+                    if entries.iter().all(|e| e.3 == entries[0].3) {
+                        let inner: Vec<<C as Pairing>::SignatureShare> = shares.iter().map(|s| *s.as_raw_value()).collect();
+                        let t = <C as BlsSignatureCore>::core_combine_signature_shares(&inner);
+                        let tg = if t.is_ok() { "Ok" } else { "Err" };
+                        if tg != want || t.as_ref().ok().map(|p| enc_s::<C>(p)) != r.as_ref().ok().map(|p| enc_s::<C>(p.as_raw_value())) {
+                            return Outcome::fail(json!({"path": "trait", "trait": tg, "struct": got}), format!("spec predicts {want}, the trait-level core_combine_signature_shares returned {tg} (or another point)"));
+                        }
+                        o.extra += 1;
+                    }
                     if let Ok(c) = r {
                         let whole = sk.sign(scheme_of(&entries[0].3), &msg).expect("whole-key signature");
                         let same = Vec::<u8>::from(&c) == Vec::<u8>::from(&whole);
